@@ -58,6 +58,8 @@ def impl_run(scenario, probes=(), classes=None):
             kind = op[0]
             if kind == "create":
                 cls_of(op[1]).create(op[2])
+            elif kind == "create_at":
+                cls_of(op[1]).create(op[2], op[3])
             elif kind == "load":
                 cls_of(op[1]).load_grammar(op[3], strict=bool(op[2]))
             elif kind == "from_file":
@@ -170,6 +172,11 @@ def model_lines(scenario, route, probes=()):
         k = op[0]
         if k == "create":
             lines.append(" ".join(["RCREATE", str(route), str(op[1])] + stoks(op[2])))
+        elif k == "create_at":
+            # Rule.create(text, start): the rule is read from offset start of the CRLF-completed text; by locality of the
+            # engine (and of the spec reader) that is the text from that offset on
+            t = op[2] if op[2][-2:] == "\r\n" else op[2] + "\r\n"
+            lines.append(" ".join(["RCREATE", str(route), str(op[1])] + stoks(t[op[3]:])))
         elif k == "load":
             lines.append(" ".join(["RLOAD", str(route), str(op[1]), "1" if op[2] else "0"] + stoks(op[3])))
         elif k == "from_file":
@@ -381,7 +388,14 @@ def c04_scenario(seed, k):
     c = 100
     filler = lambda: rng.choice(["", "", "; a comment line\r\n", "\r\n", "   \r\n", " ; indented comment\r\n"]) if layout else ""  # noqa: E731
     if route == "create":
-        sc = [["create", c, t + rng.choice(["", "\r\n"])] for t in texts]
+        sc = []
+        for t in texts:
+            if rng.random() < 0.3:
+                # the documented start offset: junk (another rule, a comment, arbitrary text) before the rule
+                pre = rng.choice(['; generated\r\n', 'zz = "q"\r\n', "x", "ab ", '"'])
+                sc.append(["create_at", c, pre + t + rng.choice(["", "\r\n"]), len(pre)])
+            else:
+                sc.append(["create", c, t + rng.choice(["", "\r\n"])])
     elif route == "deco_rules":
         sc = [["deco_rules", c, texts, []]]
     else:
@@ -398,13 +412,25 @@ def c04_scenario(seed, k):
             sc = [["from_file", c, body.replace("\r\n", "\n"), 1]]
         else:
             sc = [["deco_rulelist", c, body.replace("\r\n", "\n"), []]]
+    # the class may sit below another grammar class on which create() was used before (nothing may leak down or up)
+    parents = {}
+    if rng.random() < 0.3:
+        parents = {100: 102}
+        # (the base class itself is only used in the fresh-interpreter histories of C10: here all scenarios share a process)
+        sc = [["create", 102, 'greeting = "hello"'], ["create", 102, 'upper = "up"']] + sc
+    # first-match flags through the public property after loading (only top-level alternations are affected)
+    if rng.random() < 0.3:
+        for r in rules:
+            if rng.random() < 0.5:
+                sc.append(["flag", c, r["name"], 1])
     # an incremental alternative now and then
     if rng.random() < 0.25:
         extra = ["lit", 0, "zz"]
         tgt = rng.choice(rules)
         sc.append(["create", c, render_rule(rng, tgt["name"], extra, layout, incr=True)])
         tgt["def"] = ["alt", 0, [tgt["def"], extra]]
-    return {"seed": seed, "index": k, "route": route, "layout": layout, "rules": rules, "scenario": sc}
+    return {"seed": seed, "index": k, "route": route, "layout": layout, "rules": rules, "scenario": sc, "parents": parents,
+            "flags": [op[2] for op in sc if op[0] == "flag"]}
 
 
 def run_c04(cases):
@@ -413,7 +439,10 @@ def run_c04(cases):
     lines0, lines1 = [], []
     impl_results = []
     for c in cases:
+        PARENTS.clear()
+        PARENTS.update({int(k): v for k, v in (c.get("parents") or {}).items()})
         st, dump, _ = impl_run(c["scenario"])
+        PARENTS.clear()
         impl_results.append((st, dump))
         stats["routes"][c["route"]] = stats["routes"].get(c["route"], 0) + 1
         stats["layout"] += bool(c["layout"])
@@ -427,9 +456,11 @@ def run_c04(cases):
         st0, d0, _ = split_model_output(o0, c["scenario"], 0)
         st1, d1, _ = split_model_output(o1, c["scenario"], 0)
         want = ast_dump(c["rules"], "c100", CORE)
-        got = {k: v["def"] for k, v in dump.items() if k.startswith("c100|") and v["def"] is not None}
+        def unflag(e):
+            return (["alt", 0] + e[2:]) if isinstance(e, list) and e and e[0] == "alt" else e
+        got = {k: unflag(v["def"]) for k, v in dump.items() if k.startswith("c100|") and v["def"] is not None}
         stats["accepted"] += all(s == "OK" for s in st)
-        pref = ["c100|", "core|", "meta|"]
+        pref = ["c100|", "c102|", "core|", "meta|"]
         problems = []
         if any(s != "OK" for s in st):
             problems.append({"what": "implementation rejected a valid text", "status": st})
